@@ -346,6 +346,7 @@ type tracked struct {
 	name, role string
 	snap       func() []float64 // observable state
 	rep        func() []float64 // representation (sparse private state); may be nil
+	ref        interface{}      // the object itself (storage identity in sequence mode); may be nil
 }
 
 // bld collects the objects of one call and the call itself.
@@ -354,7 +355,32 @@ type bld struct {
 	objs []tracked
 	run  func() error // the library call; a returned error gives outcome "error"
 	post func() []Obj // optional: extra objects computed after the "after" snapshot
+	seq  *seqState    // non-nil in sequence mode (seq.go): the InSitu struct persists across calls
+	rets []interface{} // objects the call returned (sequence mode)
 }
+
+// persist returns the InSitu struct to pass: in sequence mode the one created
+// by the first call of the sequence, otherwise the fresh one.
+func (b *bld) persist(fresh interface{}) interface{} {
+	if b.seq == nil {
+		return fresh
+	}
+	if b.seq.is == nil {
+		b.seq.is = fresh
+	}
+	return b.seq.is
+}
+
+// later is true for the second and later calls of a sequence: the caller
+// leaves the buffers of the persistent InSitu struct as they are.
+func (b *bld) later() bool { return b.seq != nil && b.seq.call > 0 }
+
+// ret records what the call returned (for sequence mode).
+func (b *bld) ret(xs ...interface{}) { b.rets = append(b.rets, xs...) }
+
+// selfBuf: the caller opts into in-place work by passing the input itself as
+// the work buffer (first call of a sequence whose spec says so).
+func (b *bld) selfBuf() bool { return b.seq != nil && !b.later() && b.s.int1("selfbuf", 0) == 1 }
 
 func (b *bld) bit(i int) bool { return b.s.Mask&(1<<uint(i)) != 0 }
 
@@ -362,22 +388,22 @@ func (b *bld) track(name, role string, snap func() []float64) {
 	b.objs = append(b.objs, tracked{name: name, role: role, snap: snap})
 }
 func (b *bld) mat(name, role string, m ConstMatrix) {
-	b.objs = append(b.objs, tracked{name, role, func() []float64 { return snapMatrix(nil, m) }, func() []float64 { return repMatrix(m) }})
+	b.objs = append(b.objs, tracked{name, role, func() []float64 { return snapMatrix(nil, m) }, func() []float64 { return repMatrix(m) }, m})
 }
 func (b *bld) vec(name, role string, v ConstVector) {
-	b.objs = append(b.objs, tracked{name, role, func() []float64 { return snapVector(nil, v) }, func() []float64 { return repVector(v) }})
+	b.objs = append(b.objs, tracked{name, role, func() []float64 { return snapVector(nil, v) }, func() []float64 { return repVector(v) }, v})
 }
 func (b *bld) sca(name, role string, x ConstScalar) {
-	b.track(name, role, func() []float64 { return snapScalar(nil, x) })
+	b.objs = append(b.objs, tracked{name: name, role: role, snap: func() []float64 { return snapScalar(nil, x) }, ref: x})
 }
 func (b *bld) f64s(name, role string, p []float64) {
-	b.track(name, role, func() []float64 {
+	b.objs = append(b.objs, tracked{name: name, role: role, ref: p, snap: func() []float64 {
 		r := []float64{float64(len(p))}
 		return append(r, p...)
-	})
+	}})
 }
 func (b *bld) bools(name, role string, p []bool) {
-	b.track(name, role, func() []float64 {
+	b.objs = append(b.objs, tracked{name: name, role: role, ref: p, snap: func() []float64 {
 		r := []float64{float64(len(p))}
 		for _, x := range p {
 			if x {
@@ -387,7 +413,7 @@ func (b *bld) bools(name, role string, p []bool) {
 			}
 		}
 		return r
-	})
+	}})
 }
 
 // inMat builds a main input matrix.  A sparse input optionally carries an
